@@ -194,7 +194,7 @@ theorem agree_ext4_closed (c : Cfg) (fm : FileM) (h : H) (ho : h.closed = false)
     cases fm with
     | fat f => simp [readOpen, fatRead]
     | ext4 f =>
-      have hl := ext4Loop_cfg { c with e4Closed := false } { c with e4Closed := true } rfl
+      have hl := ext4Loop_cfg { c with e4Closed := false } { c with e4Closed := true } rfl rfl
       simp only [readOpen, ext4Read, hl]
     | iso s => rfl
     | sqfs f => simp [readOpen, sqRead, sqFinish]
